@@ -4,6 +4,7 @@ import PdfModel.Lemmas.XrefTable
 import PdfModel.Lemmas.XrefTableWriter
 import PdfModel.Lemmas.XrefWalk
 import PdfModel.Lemmas.XrefFile
+import PdfModel.Lemmas.XrefTableTotal
 
 /-!
 # C02 — the newest cross-reference entry for an object always wins
@@ -271,6 +272,14 @@ theorem table_writer_reads_back (subs : List Sub) (h : ∀ s ∈ subs, SubOK s) 
   have := table_section_reads_back (buf := (g ++ (writeTable subs tape).1 ++ XrefTable.kwTrailer ++ rest).toArray)
     subs g _ rest hg (writeTable_conformant subs h tape) hb 0 (suffix_zero _)
   simpa [XrefTable.defaultFuel] using this
+
+/-- **The subsection loop ends on every input** (the Rust `while` loop carries no bound; the model's does):
+    whatever the bytes, from any lexer position, `buf.size + 1` rounds suffice — every round consumes at
+    least the two header numbers, and every lexeme is at least one byte of progress
+    (`PdfLex.nextWord_progress`; the comment loop inside `next_word` never exhausts its own fuel either). -/
+theorem table_reader_total (buf : Buf) (pos : Nat) (hp : pos ≤ buf.size) :
+    parseTable buf (XrefTable.defaultFuel buf) pos ≠ .oof :=
+  parseTable_ne_oof buf pos hp
 
 variable {R : Type}
 
